@@ -1867,6 +1867,14 @@ class Interp:
                 if isinstance(v, Seq):
                     pos.extend(v.items)
                 else:
+                    va = v if isinstance(v, Arr) else arrays.to_arr(v)
+                    if isinstance(va, Arr) and va.ndim == 2 and va.axes[1][0].concrete is not None \
+                            and isinstance(fv, FuncV) and fv.kind == "prim" and fv.target == "builtins.zip" and len(n.args) == 1:
+                        # zip(*rows): the columns of a table of k-tuples, one tuple per column
+                        k = va.axes[1][0].concrete
+                        cols = [Arr([va.axes[0]], sym.subst_ivar(va.elem, va.axes[1][1], j), "list").renamed() for j in range(k)]
+                        self.event("zip-star", n, table=va)
+                        return Seq(cols, "tuple")
                     pos.append(self.unknown("star-arg", a))
             else:
                 pos.append(self.eval(a, env))
